@@ -4,11 +4,6 @@ import LyModel.JsonTree.Spec
 namespace LyModel.JsonTree
 open LyModel
 
-/-- members, each preceded by a comma when something precedes it -/
-def cc (p : Bool) : List Bytes → Bytes
-  | [] => []
-  | m :: r => (if p then [44] else []) ++ m ++ cc true r
-
 theorem cc_append (p : Bool) (a b : List Bytes) : cc p (a ++ b) = cc p a ++ cc (p || !a.isEmpty) b := by
   induction a generalizing p with
   | nil => simp [cc]
@@ -149,7 +144,7 @@ theorem sim_closed_arr_run (top : Bool) (pmod : Option Bytes) (p : Bool) (x : Na
 theorem sim_closed_plain_run (top : Bool) (pmod : Option Bytes) (p : Bool) (x : Nat) (run rest : List Item)
     (hrun : ∀ j ∈ run, j.sid = x ∧ j.isArr = false) :
     sim top pmod (.closed p) (run ++ rest) =
-      (cc p ((run.filter (·.shown)).map fun i => keyOf top pmod i.modName i.name ++ i.body) ++
+      (cc p ((run.filter (·.shown)).flatMap (plainMems top pmod)) ++
         (sim top pmod (.closed (p || !(run.filter (·.shown)).isEmpty)) rest).1,
        (sim top pmod (.closed (p || !(run.filter (·.shown)).isEmpty)) rest).2) := by
   induction run generalizing p with
@@ -162,7 +157,9 @@ theorem sim_closed_plain_run (top : Bool) (pmod : Option Bytes) (p : Bool) (x : 
     · simp only [simStep, hs, Bool.not_false, if_true, List.nil_append]
       rw [ih' p]; simp [List.filter, hs]
     · simp only [simStep, hs, Bool.not_true, Bool.false_eq_true, if_false, hja]
-      rw [ih' true]; simp [List.filter, hs, cc, List.append_assoc]
+      rw [ih' true]
+      simp only [List.filter, hs, List.flatMap_cons, cc_append, plainMems, cc, List.isEmpty_cons, Bool.not_false, Bool.or_true,
+        List.append_assoc, Bool.true_or]
 
 end LyModel.JsonTree
 
@@ -260,7 +257,7 @@ theorem sim_closed_members (top : Bool) (pmod : Option Bytes) (n : Nat) :
         rw [cc_append]
         simp only [Bool.or_assoc, List.append_assoc, Prod.mk.injEq, true_and]
         congr 1
-        cases (List.filter (fun x => x.shown) (i :: tw)) <;> cases (members top pmod dw) <;> simp
+        cases (List.filter (fun x => x.shown) (i :: tw)) <;> cases (members top pmod dw) <;> simp [plainMems, cc]
       · have := sim_closed_arr_run top pmod p i.sid (i :: tw) dw (by simp) (by
           intro j hj
           rcases List.mem_cons.1 hj with rfl | hj'
